@@ -88,10 +88,16 @@ def branch_cond(fn, blk):
     return E.effective_cond(fn, blk)
 
 
-def _expand(fn, cond, sense, out):
+def _expand(fn, cond, sense, out, depth=0):
     out.append((cond, sense))
     n = fn.sn(cond)
     if n is None:
+        return
+    if n.get('k') == 'var' and n.get('vk') == 'local' and depth < 3 and n['d'] not in assigned_vars(fn):
+        # `const bool missing = (it == end);  if (missing)`: the named test was evaluated where the local is initialised
+        init = local_init(fn, n['d'])
+        if init is not None:
+            _expand(fn, init, sense, out, depth + 1)
         return
     if n.get('k') == 'binop' and ((n['op'] == '&&' and sense) or (n['op'] == '||' and not sense)):
         _expand(fn, n['lhs'], sense, out)
@@ -249,15 +255,20 @@ def is_pure_fn(fb, g, depth=0):
     if ok:
         for n in g.all_nodes():
             k = n.get('k')
-            if k in ('this', 'new', 'delete', 'throw', 'lambda'):
+            if k in ('new', 'delete', 'throw', 'lambda') or (k == 'this' and g.kind != 'ctor'):
                 ok = False
             elif k == 'var' and n.get('vk') in ('global', 'static_member') and 'cv' not in n:
                 ok = False
             elif k in ('assign',) or (k == 'unop' and n.get('op') in ('++', '--')):
-                x = scn(g, n['lhs'] if k == 'assign' else n['sub'])
-                if x is None or x.get('k') != 'var' or x.get('vk') != 'local':
+                t_ = n['lhs'] if k == 'assign' else n['sub']
+                x = scn(g, t_)
+                if not ((x is not None and x.get('k') == 'var' and x.get('vk') == 'local') or (g.kind == 'ctor' and g.is_this_member(t_))):
                     ok = False
-            elif k in ('call', 'construct') and 'cv' not in n:
+            elif k == 'construct' and 'cv' not in n:
+                hs = fb.by_usr.get(n.get('u'), [])     # no body in the fact base: implicit / defaulted / std value type constructor
+                if hs and not is_pure_fn(fb, hs[0], depth + 1):
+                    ok = False
+            elif k == 'call' and 'cv' not in n:
                 hs = fb.by_usr.get(n.get('u'), [])
                 if not hs or not is_pure_fn(fb, hs[0], depth + 1):
                     ok = False
@@ -283,10 +294,16 @@ def time_invariant(fb, fn, nid, depth=0):
             continue
         if k == 'unop' and n.get('op') not in ('++', '--', '&', '*'):
             continue
+        if k == 'construct':
+            hs = fb.by_usr.get(n.get('u'), [])
+            if n.get('copymove') or n.get('elidable') or (hs and is_pure_fn(fb, hs[0])) or (not hs and not n.get('args')) \
+                    or n.get('rcls', '').startswith(('__gnu_cxx::__normal_iterator', 'std::pair')):
+                continue
+            return False
         if k == 'var':
             if n.get('vk') in ('enumconst', 'function') or 'cv' in n:
                 continue
-            if n.get('vk') in ('local', 'param') and n['d'] not in written and not _is_ref_or_ptr(fn, n):
+            if n.get('vk') in ('local', 'param') and n['d'] not in written and not _is_ref(fn, n):
                 if n.get('vk') == 'param':
                     continue
                 init = local_init(fn, n['d'])
@@ -298,13 +315,38 @@ def time_invariant(fb, fn, nid, depth=0):
             if hs and (hs[0].static or hs[0].cls is None) and is_pure_fn(fb, hs[0]):
                 continue
             return False
+        if fn.const and fn.cls and not fn.is_lambda:
+            # inside a const member function the object's own state cannot change: members and const observers are invariant
+            if k == 'this' or (k == 'member' and (n.get('field') or n.get('method'))):
+                continue
+            if k == 'call' and n.get('recv') is not None and fn.root_var(n['recv']) is not None and fn.root_var(n['recv'])[0] in ('field', 'this'):
+                nm = n.get('q', '').rsplit('::', 1)[-1]
+                hs = fb.by_usr.get(n.get('u'), [])
+                if (hs and hs[0].const) or (n.get('q', '').startswith('std::') and nm in _CONST_OBSERVERS):
+                    continue
+            return False
         return False
     return True
 
 
-def _is_ref_or_ptr(fn, n):
-    t = (n.get('t') or '').rstrip()
-    return t.endswith('&') or t.endswith('*')
+_CONST_OBSERVERS = ('size', 'empty', 'begin', 'end', 'cbegin', 'cend', 'data', 'capacity', 'get', 'operator bool', '(conv)', 'front', 'back')
+
+
+def _decl_type(fn, d):
+    for n in fn.all_nodes():
+        if n.get('k') == 'decl':
+            for v in n['vars']:
+                if v['d'] == d:
+                    return v.get('tC', '')
+    for p_ in fn.params:
+        if p_['d'] == d:
+            return p_.get('tC', '')
+    return ''
+
+
+def _is_ref(fn, n):
+    """variable declared as a reference (an alias of possibly mutable state); pointers hold an invariant value."""
+    return _decl_type(fn, n['d']).rstrip().endswith('&')
 
 
 def invariant_local_init(fb, fn, d):
@@ -314,11 +356,8 @@ def invariant_local_init(fb, fn, d):
     init = local_init(fn, d)
     if init is None:
         return None
-    for n in fn.all_nodes():
-        if n.get('k') == 'decl':
-            for v in n['vars']:
-                if v['d'] == d and (v.get('tC', '').rstrip().endswith('&') or v.get('tC', '').rstrip().endswith('*')):
-                    return None
+    if _decl_type(fn, d).rstrip().endswith('&'):
+        return None
     return init if time_invariant(fb, fn, init) else None
 
 
@@ -419,7 +458,7 @@ def vector_accesses(fb, fn):
 
 def size_call_container(fb, fn, nid, depth=0):
     """expression is `C.size()` (possibly through a getter of this) -> canonical text of C, else None."""
-    n = scn(fn, nid)
+    n = rn(fb, fn, nid)
     if n is None or n.get('k') != 'call' or depth > 4:
         return None
     gb = getter_body(fb, fn, n)
@@ -445,7 +484,7 @@ def size_relation(fb, fn, cond):
 
 
 def _is_plus_one(fb, fn, nid, idx_text):
-    n = scn(fn, nid)
+    n = rn(fb, fn, nid)
     if n is None or n.get('k') != 'binop' or n.get('op') != '+':
         return False
     for a, b in ((n['lhs'], n['rhs']), (n['rhs'], n['lhs'])):
@@ -510,10 +549,21 @@ def unproven_access_path(fb, fn, access, cont, idx):
     """-> (None, evidence description) when `cont[idx]` at node `access` is reached only through bounds evidence,
     else (witness path, reason)."""
     idx_text, cont_text = ctext(fb, fn, idx), ctext(fb, fn, cont)
-    if vars_in(fn, idx) & assigned_vars(fn):
-        return [access['id']], 'the index expression %s reads a variable that is modified in the function' % idx_text
     elems, edges = bounds_evidence(fb, fn, idx_text, cont_text)
     edge_ok = lambda b, i, s: (b, i) not in edges
+    # a write to a variable of the index expression invalidates earlier evidence
+    iv = vars_in(fn, idx)
+    if iv & assigned_vars(fn):
+        for n in fn.all_nodes():
+            k = n.get('k')
+            t_ = n['lhs'] if k == 'assign' else (n['sub'] if k == 'unop' and n.get('op') in ('++', '--') else None)
+            if k == 'call' and n.get('op') in ('=', '+=', '-=', '++', '--'):
+                t_ = n['recv'] if n.get('recv') is not None else (n['args'][0] if n.get('args') else None)
+            x = scn(fn, t_) if t_ is not None else None
+            if x is not None and x.get('k') == 'var' and x.get('d') in iv:
+                w = path_search(fn, n['id'], lambda e: e == access['id'], lambda e: e in elems, edge_ok)
+                if w is not None:
+                    return [n['id']] + w, 'the index %s is modified after the bounds test' % idx_text
     w = path_search(fn, fn.entry, lambda e: e == access['id'], lambda e: e in elems, edge_ok, from_block_start=True)
     if w is not None:
         return w, 'no test of %s against %s.size() and no %s.resize(%s + 1) on this path' % (idx_text, cont_text, cont_text, idx_text)
@@ -586,6 +636,11 @@ def _field_path(fn, nid):
             nid = n['base']
         elif k == 'call' and n.get('op') in ('->', '*') and (n.get('recv') is not None or n.get('args')):
             nid = n['recv'] if n.get('recv') is not None else n['args'][0]
+        elif k == 'call' and n.get('op') == '[]' and n.get('recv') is not None and n.get('args') and is_vector_like(n):
+            i = scn(fn, n['args'][0])
+            if i is not None and i.get('k') == 'var' and i.get('vk') == 'local':
+                return ('idx', i['d'], fn.expr(n['recv'])), tuple(reversed(path))
+            return None
         elif k == 'unop' and n.get('op') == '*':
             nid = n['sub']
         elif k == 'this':
@@ -595,6 +650,13 @@ def _field_path(fn, nid):
                 for i, p in enumerate(fn.params):
                     if p['d'] == n['d']:
                         return ('param', i), tuple(reversed(path))
+            if n.get('vk') == 'local' and _decl_type(fn, n['d']).rstrip().endswith('&') and n['d'] not in assigned_vars(fn):
+                init = local_init(fn, n['d'])
+                x = scn(fn, init) if init is not None else None
+                if x is not None and (x.get('k') in ('member', 'var') or (x.get('k') == 'call' and x.get('op') in ('*', '->', '[]'))
+                                      or (x.get('k') == 'unop' and x.get('op') == '*')):
+                    nid = init      # `auto& e = *it;` / `const auto& p = C[i];`: e, p name the element
+                    continue
             return ('var', n['d']), tuple(reversed(path))
         else:
             return None
@@ -803,7 +865,7 @@ def end_test(fb, fn, cond, d, cont_text):
     op, l, r = p
     for a, b in ((l, r), (r, l)):
         x = scn(fn, a)
-        y = scn(fn, b)
+        y = rn(fb, fn, b)
         if x is None or y is None or x.get('k') != 'var' or x.get('d') != d:
             continue
         if y.get('k') == 'call' and y.get('q', '').rsplit('::', 1)[-1] in ('end', 'cend') and y.get('recv') is not None \
@@ -836,7 +898,7 @@ def empty_test(fb, fn, cond, value_texts):
         return None
     op, l, r = p
     for a, b in ((l, r), (r, l)):
-        y = scn(fn, b)
+        y = rn(fb, fn, b)
         if y is not None and y.get('k') == 'call' and y.get('q') == 'osmium::index::empty_value' and ctext(fb, fn, a) in value_texts:
             return op if pol else NEG[op]
     return None
@@ -989,3 +1051,96 @@ def loop_leaks(fn, cond_blk):
             return True
         work.extend(fn.succs(b))
     return False
+
+
+def element_loops(fb, fn):
+    """Loops that are meant to visit every element of a container, in three spellings:
+         for (auto& e : C)                                        element root ('var', e)
+         for (auto it = C.begin(); it != C.end(); ++it)           element root ('var', it)          (*it / it->f)
+         for (size_t i = 0; i < C.size(); ++i)                    element root ('idx', i, text of C) (C[i])
+    -> [dict(loop=, cb=condition block, cont=container expr id, root=element root, incs=[ids of the advancing statements])]
+    Whether every element is really visited is decided by the caller with loop_skips / loop_leaks (+ incs)."""
+    out = []
+    for (l, cb, rng, var) in range_for_loops(fn):
+        if cb is not None and rng is not None and var is not None:
+            fp = _field_path(fn, local_init(fn, var))
+            out.append(dict(loop=l, cb=cb, cont=rng, root=fp[0] if fp is not None and not fp[1] else ('var', var), incs=None))
+    written = {}
+    for n in fn.all_nodes():
+        k = n.get('k')
+        t = None
+        if k == 'assign':
+            t = n['lhs']
+        elif k == 'unop' and n.get('op') in ('++', '--'):
+            t = n['sub']
+        elif k == 'call' and n.get('op') in ('=', '+=', '-=', '++', '--'):
+            t = n['recv'] if n.get('recv') is not None else (n['args'][0] if n.get('args') else None)
+        x = scn(fn, t) if t is not None else None
+        if x is not None and x.get('k') == 'var' and x.get('vk') == 'local':
+            written.setdefault(x['d'], []).append(n)
+    for l in fn.loops:
+        if l.get('cls') not in ('ForStmt', 'WhileStmt'):
+            continue
+        for b in cond_blocks(fn):
+            if b.get('termcls') != l['cls']:
+                continue
+            c = b.get('cond')
+            if not isinstance(c, int) or not fn.in_range(c, l['b'], l['e']):
+                continue
+            found = None
+            for (cc, sense) in edge_facts(fn, b, 0):
+                p = cmp_parts(fn, cc)
+                if p is None or not sense:
+                    continue
+                op, lhs, rhs = p
+                for a, z, o in ((lhs, rhs, op), (rhs, lhs, FLIP[op])):
+                    v = scn(fn, a)
+                    if v is None or v.get('k') != 'var' or v.get('vk') != 'local' or o not in ('!=', '<'):
+                        continue
+                    ws = written.get(v['d'], [])
+                    incs = [w for w in ws if (w.get('op') == '++') and fn.in_range(w['id'], l['b'], l['e'])]
+                    if len(ws) != len(incs) or not incs:
+                        continue
+                    init = local_init(fn, v['d'])
+                    zn = scn(fn, z)
+                    if init is None or zn is None or zn.get('k') != 'call' or zn.get('recv') is None:
+                        continue
+                    nm = zn.get('q', '').rsplit('::', 1)[-1]
+                    i0 = scn(fn, init)
+                    if nm in ('end', 'cend') and i0 is not None and i0.get('k') == 'call' and i0.get('recv') is not None \
+                            and i0.get('q', '').rsplit('::', 1)[-1] in ('begin', 'cbegin') and ctext(fb, fn, i0['recv']) == ctext(fb, fn, zn['recv']):
+                        found = dict(loop=l, cb=b, cont=zn['recv'], root=('var', v['d']), incs=[w['id'] for w in incs])
+                    elif nm == 'size' and fn.const_value(init) == 0 and o in ('<', '!='):
+                        found = dict(loop=l, cb=b, cont=zn['recv'], root=('idx', v['d'], fn.expr(zn['recv'])), incs=[w['id'] for w in incs])
+            if found is not None:
+                out.append(found)
+                break
+    return out
+
+
+def loop_complete(fn, lp, barrier_ids):
+    """every iteration passes one of barrier_ids and the advancing statement, and the loop is left only through its own test.
+    -> None or a reason"""
+    if loop_leaks(fn, lp['cb']):
+        return 'the loop can be left before the last element (break / return in the body)'
+    if loop_skips(fn, lp['cb'], set(barrier_ids)):
+        return 'an iteration can skip the transfer'
+    if lp['incs'] is not None and loop_skips(fn, lp['cb'], set(lp['incs'])):
+        return 'an iteration does not advance'
+    return None
+
+
+def alias_root(fn, nid):
+    """root of the object an expression is a part of / a method is called on (reference locals followed): see _field_path roots."""
+    hops = 0
+    while nid is not None and hops < 10:
+        hops += 1
+        fp = _field_path(fn, nid)
+        if fp is not None:
+            return fp[0]
+        n = scn(fn, nid)
+        if n is not None and n.get('k') == 'call' and n.get('recv') is not None:
+            nid = n['recv']
+        else:
+            return None
+    return None
